@@ -103,7 +103,7 @@ m("C15", "exempt-url-before-lowercase", HC, "    let url = relative_uri.to_strin
 # ---- C16
 m("C16", "tick-comparison-strict", PS, "            && provision_state.finished_time_tick >= query_time_tick)", "            && provision_state.finished_time_tick > query_time_tick + 5_000_000)")
 m("C16", "tick-zero-regression", PS, "        let report_provision_finished = (provision_state.finished_time_tick != 0\n            && provision_state.finished_time_tick >= query_time_tick)", "        let report_provision_finished = (provision_state.finished_time_tick >= query_time_tick)")
-m("C16", "status-tag-in-place", PROV, "    let status_file: PathBuf = provision_dir.join(STATUS_TAG_TMP_FILE_NAME);", "    let status_file: PathBuf = provision_dir.join(STATUS_TAG_FILE_NAME);")
+m("C16", "status-tag-in-place", PROV, '    let status_file: PathBuf = provision_dir.join(format!(\n        "{}.{}.{}",\n        STATUS_TAG_TMP_FILE_NAME,\n        misc_helpers::get_thread_identity(),\n        misc_helpers::get_date_time_unix_nano()\n    ));', "    let status_file: PathBuf = provision_dir.join(STATUS_TAG_FILE_NAME);")
 m("C16", "reset-keeps-finished", PW, "                        provision_finished_time_tick =\n                            if provision_state.contains(ProvisionFlags::ALL_READY) {\n                                misc_helpers::get_date_time_unix_nano()\n                            } else {\n                                0\n                            };", "")
 m("C16", "error-text-wrong-bit", PROV, "    if !provision_state.contains(ProvisionFlags::LISTENER_READY) {\n        state.push_str(&format!(\n            \"proxyListenerStatus", "    if !provision_state.contains(ProvisionFlags::KEY_LATCH_READY) {\n        state.push_str(&format!(\n            \"proxyListenerStatus")
 m("C16", "shared-tmp-name-regression", PROV, '        "{}.{}.{}",\n        STATUS_TAG_TMP_FILE_NAME,\n        misc_helpers::get_thread_identity(),\n        misc_helpers::get_date_time_unix_nano()', '        "{}.{}.{}",\n        STATUS_TAG_TMP_FILE_NAME,\n        0,\n        0')
